@@ -164,6 +164,12 @@ def run(ctx, eng):
         ad = [e for e in p.events if cm.is_call_to(e, 'add_data')]
         its = [e for e in p.events if e.kind == 'iter']
         if not its:
+            if p.exit != 'raise':
+                # a call that returns without draining the buffer: what it
+                # was given is judged by the NEXT call, or never - the
+                # outcome depends on where the chunks were cut
+                bad.append('a path returns without appending and parsing '
+                           'the input')
             continue
         n += 1
         if len(ad) != 1 or ad[0].args[0] != ('p', 'data') or \
